@@ -36,6 +36,7 @@ def run_case(case, R):
         pending = []         # (conn, rid) requests the accessory has received and not answered
         partial = []         # [conn, remaining wire bytes] of a response delivered in part
         events_sent = []
+        events_due = []      # (connection, value, time) events handed to a connection the controller had not given up
         events_got = []
         stalled_from = {}    # conn index -> number of write calls when the peer stopped reading
         reqs = {}            # rid -> dict(task, issued, written_conn, done_at, outcome)
@@ -60,18 +61,31 @@ def run_case(case, R):
             events_got.append(ev)
         p.dispatcher_connect(listener)
 
-        def response_wire(conn, rid):
-            body = json.dumps({"characteristics": [{"aid": 1, "iid": rid, "value": rid}]}, separators=(",", ":")).encode()
-            msg = b"HTTP/1.1 200 OK\r\n" + spell(b"Content-Type") + b": application/hap+json\r\n" + spell(b"Content-Length") + b": %d\r\n\r\n" % len(body) + body
-            return conn.encrypt(msg, [40, 1024])
+        def frame_msg(status_line, body):
+            """Content-Length framing, or (case['chunked']) chunked transfer coding in two chunks - both legal for responses and events."""
+            head = status_line + spell(b"Content-Type") + b": application/hap+json\r\n"
+            if not case.get("chunked"):
+                return head + spell(b"Content-Length") + b": %d\r\n\r\n" % len(body) + body
+            cut = max(1, len(body) // 2)
+            chunks = b"".join(b"%x\r\n" % len(c) + c + b"\r\n" for c in (body[:cut], body[cut:]) if c)
+            return head + spell(b"Transfer-Encoding") + b": chunked\r\n\r\n" + chunks + (b"0" if case["chunked"] == 1 else b"00") + b"\r\n\r\n"
 
-        def event_wire(conn):
+        def response_plain(rid):
+            body = json.dumps({"characteristics": [{"aid": 1, "iid": rid, "value": rid}]}, separators=(",", ":")).encode()
+            return frame_msg(b"HTTP/1.1 200 OK\r\n", body)
+
+        def response_wire(conn, rid):
+            return conn.encrypt(response_plain(rid), [40, 1024])
+
+        def event_wire(conn, plain=False):
             ev_counter[0] += 1
             v = ev_counter[0]
             body = json.dumps({"characteristics": [{"aid": 1, "iid": 9, "value": v}]}, separators=(",", ":")).encode()
-            msg = b"EVENT/1.0 200 OK\r\n" + spell(b"Content-Type") + b": application/hap+json\r\n" + spell(b"Content-Length") + b": %d\r\n\r\n" % len(body) + body
+            msg = frame_msg(b"EVENT/1.0 200 OK\r\n", body)
             events_sent.append((conn.index, v))
-            return conn.encrypt(msg, [1024])
+            if not conn.t.is_closing():
+                events_due.append((conn.index, v, loop.time()))
+            return msg if plain else conn.encrypt(msg, [1024])
 
         def live_conn():
             c = w.acc.conns[-1] if w.acc.conns else None
@@ -136,6 +150,13 @@ def run_case(case, R):
                 R.fail("C08.event-duplicated", f"{where}: events delivered {got_vals}")
             if got_vals != sorted(got_vals) or any(v not in [x for _, x in events_sent] for v in got_vals):
                 R.fail("C08.event-misrouted", f"{where}: events delivered {got_vals}, sent {events_sent}")
+            # an event sent on a connection nobody dropped, cancelled on or timed out on reaches the listeners
+            for ci, v, ts in events_due:
+                if v not in got_vals and not any(c2 == ci and dt <= now + EPS for dt, c2, _ in disconnects):
+                    cobj = next((c for c in w.acc.conns if c.index == ci), None)
+                    if cobj is not None and not cobj.t.is_closing() and not cobj.peer_closed:
+                        R.fail("C08.event-lost", f"{where}: event {v} sent on connection {ci} at t={ts} never reached the listeners (delivered: {got_vals})")
+                        break
             # no write after the controller closed a transport
             for c in w.acc.conns:
                 t = c.t
@@ -171,7 +192,12 @@ def run_case(case, R):
                         if j is None:
                             raise Pruned
                         _, rid = pending.pop(j)
-                        wire = response_wire(conn, rid)
+                        if name == "ans+event" and op[1] % 2:
+                            # response and event in one plaintext stream: the end of the response and the event share an encrypted block
+                            wire = b""
+                            wire2 = conn.encrypt(response_plain(rid) + event_wire(conn, plain=True), [40, 1024])
+                        else:
+                            wire = response_wire(conn, rid)
                         if name != "ans-part" and rid in reqs:
                             reqs[rid]["answered"] = (loop.time(), conn.index)
                         if name == "ans":
@@ -179,7 +205,8 @@ def run_case(case, R):
                         elif name == "ans-split":
                             conn.send_wire(wire, cuts=[op[1] % len(wire), (op[1] * 7 + 3) % len(wire), len(wire) - 1 - op[1] % 9])
                         elif name == "ans+event":
-                            wire2 = wire + event_wire(conn)
+                            if wire:
+                                wire2 = wire + event_wire(conn)
                             conn.send_wire(wire2, cuts=[op[1] % len(wire2), len(wire) - 1 - (op[1] % 3), len(wire) + (op[1] % 5)])
                         else:
                             cut = 1 + op[1] % (len(wire) - 1)
@@ -480,6 +507,8 @@ def enum_dfs(tier):
     for first in (["fin"], ["reset"]):
         for gap in (0.1, 0.2):
             yield {"ops": [["req", 0], ["ans"], first, ["adv", gap], ["raw", 1], ["adv", 0.1], ["raw", 2], ["adv", 1.0], ["req", 0], ["ans"]], "vdelay": 0.3, "lenient": True}
+    for ch in (1, 2):
+        yield {"ops": [["req", 0], ["ans+event", 11], ["req", 1], ["event"], ["ans"], ["req", 0], ["ans+event", 2], ["req", 2], ["ans-split", 5], ["event"], ["req", 1], ["ans"]], "chunked": ch}
     for hdr in ("lower", "upper"):
         yield {"ops": [["req", 0], ["ans"], ["req", 1], ["ans+event", 11], ["req", 0], ["ans-split", 5], ["event"], ["req", 2], ["ans"]], "hdr": hdr}
     alpha = ALPHABET_QUICK if tier == "quick" else ALPHABET_FULL
@@ -521,7 +550,7 @@ def histories(draw):
         else:
             ops.append([name])
     return {"ops": ops, "k": draw(st.integers(0, 50)), "lenient": True, "hdr": draw(st.sampled_from(["title", "title", "lower", "upper"])),
-            "vdelay": draw(st.sampled_from([0.0, 0.0, 0.3]))}
+            "vdelay": draw(st.sampled_from([0.0, 0.0, 0.3])), "chunked": draw(st.sampled_from([0, 0, 1, 2]))}
 
 
 SPEC = Property(
